@@ -207,3 +207,22 @@ Proof. vm_compute. reflexivity. Qed.
 (* an empty file list / empty file makes the parser fail with IndexError (model of entry[0]) *)
 Example C18_ex_empty_file : fa_parse_files [[]] = Err EIndex.
 Proof. vm_compute. reflexivity. Qed.
+
+(* the guard fa_seq_ok of the round trip is needed: the wrap contract says nothing about sequences
+   with blanks, and textwrap drops a blank at the end of a line.  An oracle that keeps the contract
+   and does so loses the trailing blank of "A " (the real code does the same, see the harness' stream
+   blank-in-sequence) *)
+Definition ex_wrap_drop (s : str) : list str :=
+  if existsb (Z.eqb 32) s then [removelast s] else fa_wrap70 s.
+
+Example C18_blank_refuted :
+  fa_wrap_contract ex_wrap_drop /\
+  fa_parse_files [fa_write ex_wrap_drop [([112], [65;32])]] = Ok [([112], [65])].
+Proof.
+  split; [|vm_compute; reflexivity].
+  intros s Hs. unfold ex_wrap_drop. destruct (existsb (Z.eqb 32) s) eqn:E.
+  - apply existsb_exists in E. destruct E as (c & Hin & Hc). apply Z.eqb_eq in Hc. subst c.
+    unfold fa_seq_ok in Hs. rewrite Forall_forall in Hs. destruct (Hs _ Hin) as (_ & _ & Hsp & _).
+    exfalso. apply Hsp. reflexivity.
+  - apply fa_wrap70_ok.
+Qed.
